@@ -1017,6 +1017,11 @@ def ring3(run, thorough, nprog=None):
   progs = PROBES + [gen_program(rng, k) for k in range(nprog)]
   t = time.time()
   import multiprocessing as mp
+  # the workers must all hash strings alike (./check exports PYTHONHASHSEED=0; a spawned child takes
+  # the seed from the environment at start-up): pytype words some messages in set-iteration order
+  # (incomplete-match lists the missing cases that way), so before/after runs in workers with
+  # different seeds would differ in message text for reasons unrelated to directives
+  os.environ.setdefault("PYTHONHASHSEED", "0")
   # pytype keeps about 1 MB per distinct program alive in a process that reuses its loader (measured
   # with the unchanged driver as well); workers are recycled so that a thorough run stays far below
   # the memory at which the OOM killer takes a worker away (a Pool never notices that: map() hangs)
